@@ -217,6 +217,15 @@ def rule_c(ctx: Ctx) -> None:
             blk = _block(f.node, n.ast)
             okp = okp and any(isinstance(s, ast.Assign) and text(s.targets[0]) == 'end_ns' and text(s.value) == 'False' for s in blk)
         ctx.ob(rule, f'{meth}: a scope is popped only when an end-ns event was seen, and the flag is reset', f.loc(), okp, '', key=f'{meth}|pop-flag')
+        # a pending end-ns is consumed at the next 'start' AND at the next 'end' event: two nested scopes that close before the
+        # next start tag are then both popped (sibling agreement of the two loops)
+        en = [n for n in g.nodes if n.kind == 'if' and text(n.ast.test) == "event == 'end'"]
+        pop_nodes = [n for n, c in pops_]
+        has_start = any(("event == 'start'", 'T') in guards(ctx, f, n) for n in pop_nodes)
+        has_end = any(("event == 'end'", 'T') in guards(ctx, f, n) for n in pop_nodes)
+        ctx.ob(rule, f"{meth}: a pending end-ns is consumed both at the next 'start' and at the next 'end' event", f.loc(en[0].ast) if en else f.loc(),
+               has_start and has_end, '' if has_start and has_end else "nested scopes closing before the next start tag are popped only once: "
+               "the following sibling inherits the declarations of a closed element", key=f'{meth}|pop-at-end')
         sets_ = [n for n in g.nodes if n.kind == 'stmt' and isinstance(n.ast, ast.Assign) and text(n.ast.targets[0]) == 'end_ns' and text(n.ast.value) == 'True']
         ok = bool(sets_) and all(("event == 'end-ns'", 'T') in guards(ctx, f, n) for n in sets_)
         ctx.ob(rule, f"{meth}: the flag is raised exactly on 'end-ns' events", f.loc(), ok, '', key=f'{meth}|flag-set')
